@@ -285,3 +285,63 @@ def gen_formatter_tables():
     lines += ["]", "", "end GtModel.Gen", ""]
     _write_if_changed(os.path.join(GEN_DIR, "FormatterTables.lean"), "\n".join(lines))
     return t
+
+
+# --------------------------------------------------------------------------------------------------
+# C07: other sources of run-to-run variation or hidden state, by an `ast` walk: wall clock, randomness,
+# uninitialised memory, environment, id()-based decisions, interpreter-global settings, `global` statements
+
+def _nondet_sites():
+    import ast
+    pkg = os.path.join(C.REPO, "graphtage")
+    MODS = {"time": "clock", "datetime": "clock", "random": "random", "secrets": "random", "uuid": "random"}
+    sites = []
+    for fn in sorted(os.listdir(pkg)):
+        if not fn.endswith(".py"):
+            continue
+        tree = ast.parse(open(os.path.join(pkg, fn), encoding="utf-8").read())
+        funcs = [n for n in ast.walk(tree) if isinstance(n, (ast.FunctionDef, ast.AsyncFunctionDef))]
+        owner = {}
+        for f in funcs:
+            for n in ast.walk(f):
+                owner.setdefault(id(n), f.name)
+        for n in ast.walk(tree):
+            where = owner.get(id(n), "<module>")
+            if isinstance(n, ast.Call):
+                f = n.func
+                if isinstance(f, ast.Attribute) and isinstance(f.value, ast.Name):
+                    if f.value.id in MODS:
+                        sites.append((MODS[f.value.id], fn, where, ast.unparse(f)))
+                    if f.value.id in ("np", "numpy") and f.attr in ("empty", "empty_like"):
+                        sites.append(("uninitialised-memory", fn, where, ast.unparse(f)))
+                    if f.value.id == "sys" and f.attr in ("setrecursionlimit", "setswitchinterval", "settrace", "setprofile"):
+                        sites.append(("interpreter-global", fn, where, ast.unparse(f)))
+                    if f.value.id == "os" and f.attr in ("getenv", "putenv"):
+                        sites.append(("environment", fn, where, ast.unparse(f)))
+                if isinstance(f, ast.Name) and f.id == "id":
+                    sites.append(("id", fn, where, ast.unparse(n)[:50]))
+            if isinstance(n, ast.Attribute) and isinstance(n.value, ast.Name) and n.value.id == "os" and n.attr == "environ":
+                sites.append(("environment", fn, where, "os.environ"))
+            if isinstance(n, ast.Global):
+                sites.append(("global-statement", fn, where, ",".join(n.names)))
+            if isinstance(n, (ast.ImportFrom,)) and n.module in MODS:
+                sites.append((MODS[n.module] + "-import", fn, "<module>", "from " + n.module + " import " + ",".join(a.name for a in n.names)))
+    return sorted(set(sites))
+
+
+def gen_nondet_sites():
+    sites = _nondet_sites()
+    lines = ["-- GENERATED from /repo by harness/gentables.py on every run. Do not edit.",
+             "namespace GtModel.Gen", "",
+             "/-- wall clock / randomness / uninitialised memory / environment / id() / interpreter-global / `global`",
+             "    sites in the package: (kind, file, function, expression) -/",
+             "def nondetSites : List (String × String × String × String) := ["]
+    lines.append(",\n".join(f"  ({_s(a)}, {_s(b)}, {_s(c)}, {_s(d)})" for a, b, c, d in sites))
+    lines += ["]", "", "end GtModel.Gen", ""]
+    _write_if_changed(os.path.join(GEN_DIR, "NondetSites.lean"), "\n".join(lines))
+    return sites
+
+
+def gen_c07_tables():
+    gen_set_sites()
+    gen_nondet_sites()
